@@ -256,13 +256,14 @@ def rule_c05_r4(model: Model) -> RuleResult:
     opts = ['self.out_name', 'self.rename', 'self.aliases', 'self.in_names', '$in_rename', '$out_rename']
     base_nz = Normalizer(model, f, cfg_of(model, f))
 
-    def make_oracle(combo: t.Dict[str, bool]) -> t.Callable[[ast.expr], t.Optional[bool]]:
+    def make_oracle(combo: t.Dict[str, bool], pnames: t.Optional[t.Dict[str, str]] = None) -> t.Callable[[ast.expr], t.Optional[bool]]:
+        # ``pnames``: inside a helper, its parameter names -> the normal form of what make_field passes for them
         def oracle(test: ast.expr) -> t.Optional[bool]:
             # X is None / X is not None
             if isinstance(test, ast.Compare) and len(test.ops) == 1 and isinstance(test.ops[0], (ast.Is, ast.IsNot)) \
                     and isinstance(test.comparators[0], ast.Constant) and test.comparators[0].value is None:
                 nm = unparse(test.left)
-                key = nm if nm.startswith('self.') else f'${nm}'
+                key = nm if nm.startswith('self.') else (pnames.get(nm, f'${nm}') if pnames is not None else f'${nm}')
                 if key in combo:
                     given = combo[key]
                     return (not given) if isinstance(test.ops[0], ast.Is) else given
@@ -297,7 +298,10 @@ def rule_c05_r4(model: Model) -> RuleResult:
         if len(rets) != 1:
             raise AnalysisError(f"{f.loc()}: make_field has {len(rets)} exits for configuration [{label}]")
         r.instances += 1
-        nz = Normalizer(model, sf, cfg, param_map={p_: f'${p_}' for p_ in sf.params if p_ != 'self'})
+        def hook(g: FuncInfo, pm: t.Dict[str, str], combo: t.Dict[str, bool] = combo) -> FuncInfo:
+            # helpers of make_field are specialised for the same configuration (their parameters named by what they receive)
+            return specialize(model, g, make_oracle(combo, {k: v for k, v in pm.items() if k != 'self'}))
+        nz = Normalizer(model, sf, cfg, param_map={p_: f'${p_}' for p_ in sf.params if p_ != 'self'}, func_hook=hook)
         call = rets[0].ast.value
         if not isinstance(call, ast.Call):
             raise AnalysisError(f"{f.loc(call)}: make_field does not return a Field(...) call")
